@@ -46,6 +46,10 @@ def gen(rng, tier):
         if rng.random() < 0.2 and ntr >= 2:          # all trajectories equally long
             L = rng.randint(4, 30)
             n, lims = L * ntr, [L] * ntr
+        elif rng.random() < 0.2 and ntr >= 3:        # equal lengths that are NOT neighbours (5, 8, 5 / 9, 4, 6, 4): grouping by length must not reorder
+            a, b = rng.sample(range(4, 25), 2)
+            lims = [a, b, a] if ntr == 3 else rng.choice([[a, b, a, b], [a, b, rng.randint(4, 25), b], [a, b, a, rng.randint(4, 25)]])
+            n = sum(lims)
         tiny = kind == 'filter' and rng.random() < 0.15
         if tiny:            # files of one or two frames (a single row with several columns)
             n = rng.choice([1, 1, 2])
